@@ -16,6 +16,7 @@ import (
 	"Havoc/pkg/handlers"
 
 	"github.com/gin-gonic/gin"
+	"pgregory.net/rapid"
 
 	"verifharness/internal/demonref"
 	"verifharness/internal/tsx"
@@ -164,4 +165,35 @@ func (e *Endpoint) CheckIn(s *Session, askJobs bool, subs []demonref.Sub) (int, 
 // IsNoJob reports whether a decoded reply is the single COMMAND_NOJOB answer.
 func IsNoJob(t []demonref.Task) bool {
 	return len(t) == 1 && t[0].Cmd == demonref.CmdNoJob && len(t[0].Raw) == 0
+}
+
+// Bits draws n fair bits (rapid.Bool is an unbiased coin, whereas IntRange and
+// SampledFrom strongly favour small values / early elements, which makes "rare" classes
+// placed first anything but rare).
+func Bits(t *rapid.T, label string, n int) int {
+	v := 0
+	for i := 0; i < n; i++ {
+		v <<= 1
+		if rapid.Bool().Draw(t, label) {
+			v |= 1
+		}
+	}
+	return v
+}
+
+// Weighted picks an index with probability proportional to weights (resolution 1/1024).
+// All-false bits (what shrinking converges to) select index 0.
+func Weighted(t *rapid.T, label string, weights ...int) int {
+	total := 0
+	for _, w := range weights {
+		total += w
+	}
+	x := Bits(t, label, 10) * total / 1024
+	for i, w := range weights {
+		if x < w {
+			return i
+		}
+		x -= w
+	}
+	return len(weights) - 1
 }
